@@ -51,9 +51,13 @@ func RunPlan(args []string, opts GlobalOptions) error {
 			return err
 		}
 
-		workingIDs := make(map[string]*Task, len(graph.Tasks)+len(input.Tasks)+1)
+		workingIDs := make(map[string]*Task, len(graph.Tasks)+len(graph.Tombstones)+len(input.Tasks)+1)
 		for id, task := range graph.Tasks {
 			workingIDs[id] = task
+		}
+		// Pruned ids stay reserved: their old events are still in the log.
+		for id := range graph.Tombstones {
+			workingIDs[id] = nil
 		}
 
 		epicTitle := *input.Title
